@@ -1,5 +1,12 @@
+(** Property C03 - rays start at the requested field point and aim at the requested pupil point.
+    Statements only; proofs are in Lemmas/L_C03_{table,launch,dist,vig,all}.v.
+    k_rg_generate / k_rg_origins / k_rg_z_offset / k_dist_...: kernels regenerated from optiland/rays/ray_generator.py and
+    optiland/distribution.py on every run.  Arguments of k_rg_generate: Hx Hy Px Py wavelength vig_x vig_y max_field
+    object_is_infinite field_type telecentric EPL EPD positions object_radius object_conic object_z aperture_type
+    aperture_value polarization uses_polarization.  r_x .. r_w project the returned ray (x y z L M N intensity wavelength);
+    offset EPD pos = k_rg_z_offset ROps pos EPD (launch plane distance); tanx Hx mf = tan(deg(mf*Hx)), tany Hy mf likewise. *)
 From Coq Require Import Reals ZArith List String.
-From OV Require Import Ops RInst XR OpsC03 OpsC18 Gen.Standard Gen.RayGen Gen.Distrib Spec.S_C03 Model.M_C03 Lemmas.L_C03_table Lemmas.L_C03_launch Lemmas.L_C03_dist Lemmas.L_C03_vig.
+From OV Require Import Ops RInst XR OpsC03 OpsC18 Gen.Standard Gen.RayGen Gen.Distrib Spec.S_C03 Model.M_C03 Lemmas.L_C03_table Lemmas.L_C03_launch Lemmas.L_C03_dist Lemmas.L_C03_vig Lemmas.L_C03_all.
 Local Open Scope R_scope.
 Import ListNotations.
 
@@ -134,42 +141,25 @@ Theorem C03_launch_telecentric :
 Proof. exact launch_telecentric. Qed.
 Print Assumptions C03_launch_telecentric.
 
-Theorem C03_line_x_count :
-  forall (O : Ops) (n : Z) (vx : T O) (po : bool),
-       Datatypes.length (fst (k_dist_line_x O n vx po)) = Z.to_nat n /\
-       Datatypes.length (snd (k_dist_line_x O n vx po)) = Z.to_nat n.
-Proof. exact (@line_x_count). Qed.
-Print Assumptions C03_line_x_count.
-
-Theorem C03_line_y_count :
-  forall (O : Ops) (n : Z) (vy : T O) (po : bool),
-       Datatypes.length (fst (k_dist_line_y O n vy po)) = Z.to_nat n /\
-       Datatypes.length (snd (k_dist_line_y O n vy po)) = Z.to_nat n.
-Proof. exact (@line_y_count). Qed.
-Print Assumptions C03_line_y_count.
-
-Theorem C03_cross_count_thm :
+Theorem C03_samplings_counts :
   forall (O : Ops) (n : Z) (vx vy : T O),
-       (0 <= n)%Z ->
-       Z.of_nat (Datatypes.length (fst (k_dist_cross O n vx vy))) = cross_count n /\
-       Z.of_nat (Datatypes.length (snd (k_dist_cross O n vx vy))) = cross_count n.
-Proof. exact (@cross_count_thm). Qed.
-Print Assumptions C03_cross_count_thm.
-
-Theorem C03_ring_count :
-  forall (O : Ops) (n : Z) (vx vy : T O),
-       Datatypes.length (fst (k_dist_ring O n vx vy)) = Z.to_nat n /\
-       Datatypes.length (snd (k_dist_ring O n vx vy)) = Z.to_nat n.
-Proof. exact (@ring_count). Qed.
-Print Assumptions C03_ring_count.
-
-Theorem C03_random_count :
-  forall (O : Ops) (vx vy : T O) (r th : list (T O)),
-       Datatypes.length r = Datatypes.length th ->
-       Datatypes.length (fst (k_dist_random O vx vy r th)) = Datatypes.length r /\
-       Datatypes.length (snd (k_dist_random O vx vy r th)) = Datatypes.length r.
-Proof. exact (@random_count). Qed.
-Print Assumptions C03_random_count.
+       (forall po : bool,
+        Datatypes.length (fst (k_dist_line_x O n vx po)) = Z.to_nat n /\
+        Datatypes.length (snd (k_dist_line_x O n vx po)) = Z.to_nat n) /\
+       (forall po : bool,
+        Datatypes.length (fst (k_dist_line_y O n vy po)) = Z.to_nat n /\
+        Datatypes.length (snd (k_dist_line_y O n vy po)) = Z.to_nat n) /\
+       (Datatypes.length (fst (k_dist_ring O n vx vy)) = Z.to_nat n /\
+        Datatypes.length (snd (k_dist_ring O n vx vy)) = Z.to_nat n) /\
+       ((0 <= n)%Z ->
+        Z.of_nat (Datatypes.length (fst (k_dist_cross O n vx vy))) = cross_count n /\
+        Z.of_nat (Datatypes.length (snd (k_dist_cross O n vx vy))) = cross_count n) /\
+       (forall r th : list (T O),
+        Datatypes.length r = Datatypes.length th ->
+        Datatypes.length (fst (k_dist_random O vx vy r th)) = Datatypes.length r /\
+        Datatypes.length (snd (k_dist_random O vx vy r th)) = Datatypes.length r).
+Proof. exact samplings_counts. Qed.
+Print Assumptions C03_samplings_counts.
 
 Theorem C03_hexapolar_count_thm :
   forall (O : Ops) (n : Z) (vx vy : T O),
@@ -178,13 +168,6 @@ Theorem C03_hexapolar_count_thm :
        Z.of_nat (Datatypes.length (snd (k_dist_hexapolar O n vx vy))) = hexapolar_count n.
 Proof. exact (@hexapolar_count_thm). Qed.
 Print Assumptions C03_hexapolar_count_thm.
-
-Theorem C03_gq_radius_defined :
-  forall (O : Ops) (n : Z),
-       is_none (k_dist_gq_radius O n) = negb (gq_rings_ok n) /\
-       (forall l : list (T O), k_dist_gq_radius O n = Some l -> Datatypes.length l = Z.to_nat n).
-Proof. exact (@gq_radius_defined). Qed.
-Print Assumptions C03_gq_radius_defined.
 
 Theorem C03_gq_count_thm :
   forall (O : Ops) (n : Z) (vx vy : T O) (sym : bool),
@@ -216,66 +199,49 @@ Theorem C03_uniform_points :
 Proof. exact (@uniform_points). Qed.
 Print Assumptions C03_uniform_points.
 
-Theorem C03_line_x_in_disk :
-  forall (n : Z) (vx : R) (po : bool),
-       unit_interval vx -> Forall in_unit_disk (pts (k_dist_line_x ROps n vx po)).
-Proof. exact line_x_in_disk. Qed.
-Print Assumptions C03_line_x_in_disk.
-
-Theorem C03_line_y_in_disk :
-  forall (n : Z) (vy : R) (po : bool),
-       unit_interval vy -> Forall in_unit_disk (pts (k_dist_line_y ROps n vy po)).
-Proof. exact line_y_in_disk. Qed.
-Print Assumptions C03_line_y_in_disk.
-
-Theorem C03_cross_in_disk :
+Theorem C03_samplings_in_unit_disk :
   forall (n : Z) (vx vy : R),
-       unit_interval vx ->
-       unit_interval vy -> Forall in_unit_disk (pts (k_dist_cross ROps n vx vy)).
-Proof. exact cross_in_disk. Qed.
-Print Assumptions C03_cross_in_disk.
-
-Theorem C03_ring_in_disk :
-  forall (n : Z) (vx vy : R),
-       unit_interval vx -> unit_interval vy -> Forall in_unit_disk (pts (k_dist_ring ROps n vx vy)).
-Proof. exact ring_in_disk. Qed.
-Print Assumptions C03_ring_in_disk.
-
-Theorem C03_random_in_disk :
-  forall (vx vy : R) (r th : list R),
        unit_interval vx ->
        unit_interval vy ->
-       Forall unit_interval r -> Forall in_unit_disk (pts (k_dist_random ROps vx vy r th)).
-Proof. exact random_in_disk. Qed.
-Print Assumptions C03_random_in_disk.
+       (forall po : bool, Forall in_unit_disk (pts (k_dist_line_x ROps n vx po))) /\
+       (forall po : bool, Forall in_unit_disk (pts (k_dist_line_y ROps n vy po))) /\
+       Forall in_unit_disk (pts (k_dist_cross ROps n vx vy)) /\
+       Forall in_unit_disk (pts (k_dist_ring ROps n vx vy)) /\
+       Forall in_unit_disk (pts (k_dist_hexapolar ROps n vx vy)) /\
+       Forall in_unit_disk (pts (k_dist_uniform ROps n vx vy)) /\
+       (forall (sym : bool) (xs ys : list (T ROps)),
+        k_dist_gq ROps n vx vy sym = Some (xs, ys) -> Forall in_unit_disk (combine xs ys)) /\
+       (forall (r : list R) (th : list (T ROps)),
+        Forall unit_interval r -> Forall in_unit_disk (pts (k_dist_random ROps vx vy r th))).
+Proof. exact samplings_in_unit_disk. Qed.
+Print Assumptions C03_samplings_in_unit_disk.
 
-Theorem C03_hexapolar_in_disk :
+Theorem C03_samplings_vignetting_shrinks :
   forall (n : Z) (vx vy : R),
-       unit_interval vx ->
-       unit_interval vy -> Forall in_unit_disk (pts (k_dist_hexapolar ROps n vx vy)).
-Proof. exact hexapolar_in_disk. Qed.
-Print Assumptions C03_hexapolar_in_disk.
-
-Theorem C03_gq_in_disk :
-  forall (n : Z) (vx vy : R) (sym : bool) (xs ys : list (T ROps)),
        unit_interval vx ->
        unit_interval vy ->
-       k_dist_gq ROps n vx vy sym = Some (xs, ys) -> Forall in_unit_disk (combine xs ys).
-Proof. exact gq_in_disk. Qed.
-Print Assumptions C03_gq_in_disk.
-
-Theorem C03_uniform_in_disk :
-  forall (n : Z) (vx vy : R),
-       unit_interval vx ->
-       unit_interval vy -> Forall in_unit_disk (pts (k_dist_uniform ROps n vx vy)).
-Proof. exact uniform_in_disk. Qed.
-Print Assumptions C03_uniform_in_disk.
-
-Theorem C03_interp_range :
-  forall (x : T ROps) (xp fp : list R),
-       Forall unit_interval fp -> unit_interval (interp_ x xp fp).
-Proof. exact interp_range. Qed.
-Print Assumptions C03_interp_range.
+       (forall po : bool,
+        shrinks (fst (k_dist_line_x ROps n vx po)) (fst (k_dist_line_x ROps n 0%R po)) /\
+        shrinks (snd (k_dist_line_x ROps n vx po)) (snd (k_dist_line_x ROps n 0%R po))) /\
+       (forall po : bool,
+        shrinks (fst (k_dist_line_y ROps n vy po)) (fst (k_dist_line_y ROps n 0%R po)) /\
+        shrinks (snd (k_dist_line_y ROps n vy po)) (snd (k_dist_line_y ROps n 0%R po))) /\
+       (shrinks (fst (k_dist_cross ROps n vx vy)) (fst (k_dist_cross ROps n 0%R 0%R)) /\
+        shrinks (snd (k_dist_cross ROps n vx vy)) (snd (k_dist_cross ROps n 0%R 0%R))) /\
+       (shrinks (fst (k_dist_ring ROps n vx vy)) (fst (k_dist_ring ROps n 0%R 0%R)) /\
+        shrinks (snd (k_dist_ring ROps n vx vy)) (snd (k_dist_ring ROps n 0%R 0%R))) /\
+       (shrinks (fst (k_dist_hexapolar ROps n vx vy)) (fst (k_dist_hexapolar ROps n 0%R 0%R)) /\
+        shrinks (snd (k_dist_hexapolar ROps n vx vy)) (snd (k_dist_hexapolar ROps n 0%R 0%R))) /\
+       (shrinks (fst (k_dist_uniform ROps n vx vy)) (fst (k_dist_uniform ROps n 0%R 0%R)) /\
+        shrinks (snd (k_dist_uniform ROps n vx vy)) (snd (k_dist_uniform ROps n 0%R 0%R))) /\
+       (forall (sym : bool) (xs ys xs0 ys0 : list (T ROps)),
+        k_dist_gq ROps n vx vy sym = Some (xs, ys) ->
+        k_dist_gq ROps n 0%R 0%R sym = Some (xs0, ys0) -> shrinks xs xs0 /\ shrinks ys ys0) /\
+       (forall r th : list (T ROps),
+        shrinks (fst (k_dist_random ROps vx vy r th)) (fst (k_dist_random ROps 0%R 0%R r th)) /\
+        shrinks (snd (k_dist_random ROps vx vy r th)) (snd (k_dist_random ROps 0%R 0%R r th))).
+Proof. exact samplings_vignetting_shrinks. Qed.
+Print Assumptions C03_samplings_vignetting_shrinks.
 
 Theorem C03_vig_factor_range :
   forall (fs : list (field ROps)) (Hx Hy a b : T ROps),
@@ -294,74 +260,4 @@ Theorem C03_aim_shrinks :
        unit_interval v -> (Rabs (P * (1 - v) * EPD / 2) <= Rabs (P * EPD / 2))%R.
 Proof. exact aim_shrinks. Qed.
 Print Assumptions C03_aim_shrinks.
-
-Theorem C03_line_x_shrinks :
-  forall (n : Z) (vx : R) (po : bool),
-       unit_interval vx ->
-       shrinks (fst (k_dist_line_x ROps n vx po)) (fst (k_dist_line_x ROps n 0%R po)) /\
-       shrinks (snd (k_dist_line_x ROps n vx po)) (snd (k_dist_line_x ROps n 0%R po)).
-Proof. exact line_x_shrinks. Qed.
-Print Assumptions C03_line_x_shrinks.
-
-Theorem C03_line_y_shrinks :
-  forall (n : Z) (vy : R) (po : bool),
-       unit_interval vy ->
-       shrinks (fst (k_dist_line_y ROps n vy po)) (fst (k_dist_line_y ROps n 0%R po)) /\
-       shrinks (snd (k_dist_line_y ROps n vy po)) (snd (k_dist_line_y ROps n 0%R po)).
-Proof. exact line_y_shrinks. Qed.
-Print Assumptions C03_line_y_shrinks.
-
-Theorem C03_cross_shrinks :
-  forall (n : Z) (vx vy : R),
-       unit_interval vx ->
-       unit_interval vy ->
-       shrinks (fst (k_dist_cross ROps n vx vy)) (fst (k_dist_cross ROps n 0%R 0%R)) /\
-       shrinks (snd (k_dist_cross ROps n vx vy)) (snd (k_dist_cross ROps n 0%R 0%R)).
-Proof. exact cross_shrinks. Qed.
-Print Assumptions C03_cross_shrinks.
-
-Theorem C03_ring_shrinks :
-  forall (n : Z) (vx vy : R),
-       unit_interval vx ->
-       unit_interval vy ->
-       shrinks (fst (k_dist_ring ROps n vx vy)) (fst (k_dist_ring ROps n 0%R 0%R)) /\
-       shrinks (snd (k_dist_ring ROps n vx vy)) (snd (k_dist_ring ROps n 0%R 0%R)).
-Proof. exact ring_shrinks. Qed.
-Print Assumptions C03_ring_shrinks.
-
-Theorem C03_uniform_shrinks :
-  forall (n : Z) (vx vy : R),
-       unit_interval vx ->
-       unit_interval vy ->
-       shrinks (fst (k_dist_uniform ROps n vx vy)) (fst (k_dist_uniform ROps n 0%R 0%R)) /\
-       shrinks (snd (k_dist_uniform ROps n vx vy)) (snd (k_dist_uniform ROps n 0%R 0%R)).
-Proof. exact uniform_shrinks. Qed.
-Print Assumptions C03_uniform_shrinks.
-
-Theorem C03_random_shrinks :
-  forall (vx vy : R) (r th : list (T ROps)),
-       unit_interval vx ->
-       unit_interval vy ->
-       shrinks (fst (k_dist_random ROps vx vy r th)) (fst (k_dist_random ROps 0%R 0%R r th)) /\
-       shrinks (snd (k_dist_random ROps vx vy r th)) (snd (k_dist_random ROps 0%R 0%R r th)).
-Proof. exact random_shrinks. Qed.
-Print Assumptions C03_random_shrinks.
-
-Theorem C03_hexapolar_shrinks :
-  forall (n : Z) (vx vy : R),
-       unit_interval vx ->
-       unit_interval vy ->
-       shrinks (fst (k_dist_hexapolar ROps n vx vy)) (fst (k_dist_hexapolar ROps n 0%R 0%R)) /\
-       shrinks (snd (k_dist_hexapolar ROps n vx vy)) (snd (k_dist_hexapolar ROps n 0%R 0%R)).
-Proof. exact hexapolar_shrinks. Qed.
-Print Assumptions C03_hexapolar_shrinks.
-
-Theorem C03_gq_shrinks :
-  forall (n : Z) (vx vy : R) (sym : bool) (xs ys xs0 ys0 : list (T ROps)),
-       unit_interval vx ->
-       unit_interval vy ->
-       k_dist_gq ROps n vx vy sym = Some (xs, ys) ->
-       k_dist_gq ROps n 0%R 0%R sym = Some (xs0, ys0) -> shrinks xs xs0 /\ shrinks ys ys0.
-Proof. exact gq_shrinks. Qed.
-Print Assumptions C03_gq_shrinks.
 
